@@ -1,23 +1,41 @@
 #!/usr/bin/env python3
-"""Evaluate a seeded breaking change: confirm it (tests pass with it, demo fails with it / passes without it) in a scratch
-worktree, then apply it to /repo, run the property's quick check, and undo it.  usage: seed_eval.py <seeded dir> [--timeout s]"""
+"""Evaluate a seeded breaking change.
+
+  seed_eval.py <seeded dir> [--inplace]
+
+1. confirm the change in a scratch worktree of /repo: the demo passes without it, the patch applies, the demo fails with
+   it, the repository's test suite still passes with it;
+2. run the property's quick check on the changed tree and record whether it reports a violation.
+   default: the check runs from a scratch copy of /verif against the scratch worktree (PYVC_REPO), so several evaluations
+   can run in parallel and /verif/evidence is not overwritten with results from a broken tree;
+   --inplace: `git -C /repo apply`, ./check in /verif, `git -C /repo checkout -- .` (refuses if /repo is dirty).
+The result is written into <seeded dir>/meta.json under "evaluation"."""
 import json, os, subprocess, sys, tempfile, shutil, time
 
+
 def sh(cmd, cwd=None, timeout=900, env=None):
-    p = subprocess.run(cmd, shell=True, cwd=cwd, capture_output=True, text=True, timeout=timeout, env=env)
-    return p.returncode, p.stdout + p.stderr
+    try:
+        p = subprocess.run(cmd, shell=True, cwd=cwd, capture_output=True, text=True, timeout=timeout, env=env)
+        return p.returncode, p.stdout + p.stderr
+    except subprocess.TimeoutExpired as e:
+        return 124, 'TIMEOUT ' + str(e)
+
 
 def main():
     d = os.path.abspath(sys.argv[1])
+    inplace = '--inplace' in sys.argv
+    pids = [a.split('=')[1] for a in sys.argv if a.startswith('--check=')]
     meta = json.load(open(os.path.join(d, 'meta.json')))
     pid = meta['property']
     patch = os.path.join(d, 'patch.diff')
     demo = os.path.join(d, 'demo.py')
     wt = tempfile.mkdtemp(prefix='seedwt_')
     os.rmdir(wt)
+    vcopy = tempfile.mkdtemp(prefix='seedverif_')
     res = {}
+    verif = os.path.dirname(os.path.dirname(os.path.abspath(__file__)))
     try:
-        rc, out = sh('git -C /repo worktree add -q %s HEAD' % wt)
+        rc, out = sh('git -C /repo worktree add -q --detach %s HEAD' % wt)
         env = dict(os.environ, PYTHONPATH=os.path.join(wt, 'src'))
         rc0, o0 = sh('/venv/bin/python %s' % demo, cwd=wt, env=env)
         res['demo_passes_without'] = (rc0 == 0)
@@ -28,28 +46,43 @@ def main():
         rc, out = sh('/venv/bin/python -m pytest -q -p no:cacheprovider -x', cwd=wt)
         res['tests_pass_with'] = (rc == 0)
         res['tests_tail'] = out.strip().splitlines()[-1] if out.strip() else ''
+        res['checks'] = {}
+        for p in ([pid] + pids):
+            r = {}
+            t0 = time.time()
+            if inplace:
+                rc, out = sh('git -C /repo status --porcelain')
+                if out.strip():
+                    print('REFUSING: /repo has uncommitted changes'); sys.exit(2)
+                try:
+                    sh('git -C /repo apply %s' % patch)
+                    rc, out = sh('./check %s --tier quick' % p, cwd=verif, timeout=int(os.environ.get('SEED_TIMEOUT', '1800')))
+                finally:
+                    sh('git -C /repo checkout -- .')
+            else:
+                sh('rsync -a --exclude .git --exclude seeded %s/ %s/' % (verif, vcopy))
+                rc, out = sh('./check %s --tier quick' % p, cwd=vcopy, timeout=int(os.environ.get('SEED_TIMEOUT', '1800')),
+                             env=dict(os.environ, PYVC_REPO=wt))
+            r['check_exit'] = rc
+            r['check_wall_s'] = round(time.time() - t0, 1)
+            vl = [l for l in out.splitlines() if l.startswith('VIOLATION')]
+            r['violation_count'] = len(vl)
+            r['violation_lines'] = sorted(set(vl))[:6]
+            r['undecided_lines'] = [l[:200] for l in out.splitlines() if l.startswith('UNDECIDED')][:6]
+            r['detected'] = (rc == 1 and bool(vl))
+            r['summary_line'] = out.strip().splitlines()[-1][:300] if out.strip() else ''
+            res['checks'][p] = r
+        res['detected'] = any(r['detected'] for r in res['checks'].values())
+        res['detected_by'] = [p for p, r in res['checks'].items() if r['detected']]
+        res['mode'] = 'inplace' if inplace else 'scratch worktree + scratch copy of /verif (PYVC_REPO)'
     finally:
         sh('git -C /repo worktree remove --force %s' % wt)
         shutil.rmtree(wt, ignore_errors=True)
-    # run the check against /repo with the change applied
-    rc, out = sh('git -C /repo status --porcelain')
-    if out.strip():
-        print('REFUSING: /repo has uncommitted changes'); sys.exit(2)
-    try:
-        rc, out = sh('git -C /repo apply %s' % patch)
-        t0 = time.time()
-        rc, out = sh('./check %s --tier quick' % pid, cwd='/verif', timeout=int(os.environ.get('SEED_TIMEOUT', '1500')))
-        res['check_exit'] = rc
-        res['check_wall_s'] = round(time.time() - t0, 1)
-        res['violation_lines'] = [l for l in out.splitlines() if l.startswith('VIOLATION')][:6]
-        res['undecided_lines'] = [l[:200] for l in out.splitlines() if l.startswith('UNDECIDED')][:6]
-        res['detected'] = (rc == 1 and bool(res['violation_lines']))
-        res['summary_line'] = out.strip().splitlines()[-1] if out.strip() else ''
-    finally:
-        sh('git -C /repo checkout -- .')
+        shutil.rmtree(vcopy, ignore_errors=True)
     meta['evaluation'] = res
     json.dump(meta, open(os.path.join(d, 'meta.json'), 'w'), indent=1)
-    print(json.dumps(res, indent=1))
+    print(os.path.basename(d), json.dumps({k: v for k, v in res.items() if k != 'checks'}), {p: (r['check_exit'], r['summary_line']) for p, r in res['checks'].items()})
+
 
 if __name__ == '__main__':
     main()
